@@ -22,6 +22,7 @@ import (
 	"github.com/cosmos/cosmos-sdk/client"
 	"github.com/cosmos/cosmos-sdk/codec"
 	sdk "github.com/cosmos/cosmos-sdk/types"
+	"github.com/cosmos/cosmos-sdk/types/mempool"
 	authtx "github.com/cosmos/cosmos-sdk/x/auth/tx"
 	"github.com/cosmos/gogoproto/proto"
 	"github.com/goatnetwork/goat/app"
@@ -90,7 +91,10 @@ func NewNode(db dbm.DB, eng *Engine, valIdx int, chainID string) (n *Node, err e
 		"priv_validator_key_file": privValFile(valIdx),
 		"home":                    WorkDir(),
 	}
-	a, err := app.New(log.NewNopLogger(), db, nil, true, opts, baseapp.SetChainID(chainID))
+	// the node binary installs the sender-nonce mempool (server.DefaultBaseappOptions,
+	// mempool.max-txs = 10 in cmd/goatd); a fixed seed keeps runs reproducible
+	mp := mempool.NewSenderNonceMempool(mempool.SenderNonceMaxTxOpt(10), mempool.SenderNonceSeedOpt(7))
+	a, err := app.New(log.NewNopLogger(), db, nil, true, opts, baseapp.SetChainID(chainID), baseapp.SetMempool(mp))
 	if err != nil {
 		return nil, err
 	}
